@@ -8,7 +8,7 @@ from typing_extensions import override
 from .decodestate import DecodeState
 from .diagcodedtype import DctType, DiagCodedType
 from .encodestate import EncodeState
-from .exceptions import EncodeError, odxraise, odxrequire
+from .exceptions import DecodeError, EncodeError, odxraise, odxrequire
 from .odxlink import OdxDocFragment, OdxLinkDatabase, OdxLinkId, OdxLinkRef
 from .odxtypes import AtomicOdxType, DataType
 from .snrefcontext import SnRefContext
@@ -103,8 +103,9 @@ class ParamLengthInfoType(DiagCodedType):
     def decode_from_pdu(self, decode_state: DecodeState) -> AtomicOdxType:
         # First, we need to find a length key with matching ID.
         if self.length_key.short_name not in decode_state.length_keys:
-            odxraise(f"Unspecified mandatory length key parameter "
-                     f"{self.length_key.short_name}")
+            odxraise(
+                f"Unspecified mandatory length key parameter "
+                f"{self.length_key.short_name}", DecodeError)
             decode_state.cursor_bit_position = 0
             return cast(None, AtomicOdxType)
 
